@@ -7118,7 +7118,28 @@ func (l *Lowerer) checkArgumentType(argHandle ir.ExpressionHandle, paramType ir.
 		return nil
 	}
 	paramInner := l.module.Types[paramType].Inner
-	if !typeShapeMatches(argInner, paramInner) {
+	mismatch := !typeShapeMatches(argInner, paramInner)
+	if !mismatch {
+		switch p := paramInner.(type) {
+		case ir.StructType:
+			// Structure types are nominal: the argument must be of the very same declared type.
+			if h := l.currentFunc.ExpressionTypes[argHandle].Handle; h != nil && *h != paramType {
+				mismatch = true
+			}
+		case ir.ArrayType:
+			// Fixed-size arrays: the element count and the element type must agree.
+			if a, ok := argInner.(ir.ArrayType); ok {
+				if (a.Size.Constant == nil) != (p.Size.Constant == nil) ||
+					(a.Size.Constant != nil && *a.Size.Constant != *p.Size.Constant) {
+					mismatch = true
+				} else if int(a.Base) < len(l.module.Types) && int(p.Base) < len(l.module.Types) &&
+					!typeShapeMatches(l.module.Types[a.Base].Inner, l.module.Types[p.Base].Inner) {
+					mismatch = true
+				}
+			}
+		}
+	}
+	if mismatch {
 		return fmt.Errorf("function '%s' argument %d: type mismatch (expected %s, got %s)", funcName, argIndex, typeName(paramInner), typeName(argInner))
 	}
 	return nil
